@@ -19,7 +19,7 @@ imports = mc_.imports
 TSV_ALL = {
     'cluster_KSLabel.tsv': {'field': 'KSLabel', 'values': {0: 'good', 2: 'mua'}},
     'cluster_Amplitude.tsv': {'field': 'Amplitude', 'values': {0: 12.5, 2: 3.25}},
-    'cluster_ContamPct.tsv': {'field': 'ContamPct', 'values': {2: 50.0}},
+    'cluster_ContamPct.tsv': {'field': 'ContamPct', 'values': {0: 0.0, 2: 50.0}},   # 0.0 is a value
 }
 
 FAMILY = [
